@@ -251,8 +251,8 @@ func coqFs(n *FsNode) string {
 }
 
 func fsSmall(n *FsNode) bool {
-	if n.NFiles > 0 || n.Size > 3000 {
-		return false
+	if n.NFiles > 0 || n.Size > 3000 || len(n.Children) > 100 {
+		return false // large directories may be sharded: the import model of the case files has no name hashes
 	}
 	for _, c := range n.Children {
 		if !fsSmall(c) {
@@ -397,6 +397,15 @@ func scnFsImport(rep *Report, rng *Rng, tier string, outdir string) {
 			add(FsInput{FailCommit: k, FailFlavor: fl, Root: &FsNode{Kind: "dir", Name: "r", Children: []*FsNode{{Kind: "file", Name: "a", Size: 5}, {Kind: "symlink", Name: "l", Target: "a"},
 				{Kind: "dir", Name: "d", Children: []*FsNode{{Kind: "file", Name: "b", Size: 300, Seed: 2}, {Kind: "symlink", Name: "m", Target: "../a"}, {Kind: "dir", Name: "e", Children: []*FsNode{{Kind: "file", Name: "c", Size: 1}}}}}}}})
 		}
+	}
+	// names of 253..255 bytes (NAME_MAX) in a directory large enough to be sharded: 920 x (255 + 36) > 262144
+	{
+		var kids []*FsNode
+		for i := 0; i < 920; i++ {
+			n := 255 - i%3
+			kids = append(kids, &FsNode{Kind: "file", Name: fmt.Sprintf("%04d-", i) + strings.Repeat("n", n-5), Size: i % 2})
+		}
+		add(FsInput{Root: &FsNode{Kind: "dir", Name: "longnames", Children: kids}})
 	}
 	// fifos at several depths
 	add(FsInput{Root: &FsNode{Kind: "fifo", Name: "pipe"}})
